@@ -224,11 +224,102 @@ def run(m, rep, tier):
                         roots.add(resolve_addr(f, oi.o[0]).root)
             ok = roots == {'$0', '$1'}
         inits = [c for c in f.calls('cstl_slist_init') if c.o and c.o[0] == '$1']
-        if ok and inits and all(f.dominates(adds[0], c) for c in inits):
+        reinit_by_stores = False
+        if not inits:
+            # re-initialised by explicit stores (directly or in a private helper): judged on the inlined body --
+            # h.n := NULL, t := &h and count := 0 of the source, all after the count was added
+            fi = m.ifn('cstl_slist_concat')
+            if fi is not None:
+                adds_i = [s2 for s2 in fi.all_insts() if s2.op == 'store' and resolve_addr(fi, s2.o[1]).fsteps[-1:] == ((SL, 'count'),) and resolve_addr(fi, s2.o[1]).root == '$0']
+                got = set()
+                for s2 in fi.all_insts():
+                    if s2.op != 'store' or strip_bitcasts(fi, resolve_addr(fi, s2.o[1]).root) != '$1':
+                        continue
+                    if not all(fi.dominates(a2, s2) for a2 in adds_i):
+                        continue
+                    names = [x[1] for x in resolve_addr(fi, s2.o[1]).fsteps]
+                    v = s2.o[0]
+                    if names == ['h', 'n'] and (v == 'null' or const_int(v) == 0):
+                        got.add('h.n')
+                    if names == ['count'] and const_int(v) == 0:
+                        got.add('count')
+                    if names == ['t'] and isinstance(v, str):
+                        av = resolve_addr(fi, v)
+                        if strip_bitcasts(fi, av.root) == '$1' and (av.steps == ('h',) or (av.steps == () and av.coff == 0)):
+                            got.add('t')
+                if got == {'h.n', 'count', 't'} and adds_i:
+                    reinit_by_stores = True
+        # the destination's tail may only become the source's tail when the source has a node: an empty source's tail is
+        # the address of its own head link
+        pvc = Prover(f)
+        empty_splice = None
+        for s2 in tail_stores(f):
+            if resolve_addr(f, s2.o[1]).root != '$0':
+                continue
+            nonempty = False
+            for (op, x, y) in pvc.facts_at(s2):
+                for val, other, side in ((x, y, 'l'), (y, x, 'r')):
+                    vi = f.get(val) if isinstance(val, str) else None
+                    if vi is None or vi.op != 'load':
+                        continue
+                    a = resolve_addr(f, vi.o[0])
+                    if a.root == '$1' and a.fsteps[-1:] == ((SL, 'count'),) and const_int(other) is not None and \
+                            ((op == 'ne' and const_int(other) == 0) or (op == 'ult' and side == 'r') or (op == 'ule' and side == 'r' and const_int(other) >= 1)):
+                        nonempty = True
+            if not nonempty:
+                empty_splice = s2
+        if empty_splice is not None:
+            n5.violation('cstl_slist_concat', 'the destination tail is re-pointed at %s without knowing that the source has any node (source count > 0): '
+                         'for an empty source the tail would become the address of the source\'s own head link' % empty_splice.loc(), floc(m, f), {})
+        elif ok and ((inits and all(f.dominates(adds[0], c) for c in inits)) or reinit_by_stores):
             n5.ok('cstl_slist_concat', 'count := dst.count + src.count once, then init(src)', floc(m, f))
         else:
             n5.violation('cstl_slist_concat', 'concat does not add the source count exactly once and then re-initialise the source '
                          '(the source would keep pointing at nodes now owned by the destination)', floc(m, f), {})
+
+    # ---- N10: unlinking the last node moves the tail to its predecessor ---------------------------
+    n10 = rep.rule('N10', 'the unlink primitive re-points the tail at the predecessor when the node it removes is the last one', floor=1)
+    n_prim = 0
+    for f in fns:
+        if len(f.args) != 2:
+            continue
+        # e->n := (old e->n)->n  : unlinks the node after parameter 1
+        unl = []
+        for s2 in link_stores(f):
+            a = resolve_addr(f, s2.o[1])
+            v = f.get(strip_bitcasts(f, s2.o[0])) if isinstance(s2.o[0], str) else None
+            if strip_bitcasts(f, a.root) == '$1' and v is not None and v.op == 'load':
+                b = resolve_addr(f, v.o[0])
+                bi = f.get(strip_bitcasts(f, b.root)) if isinstance(b.root, str) else None
+                if b.fsteps[-1:] == ((NODE, 'n'),) and bi is not None and bi.op == 'load' and strip_bitcasts(f, resolve_addr(f, bi.o[0]).root) == '$1':
+                    unl.append((s2, bi))
+        if not unl:
+            continue
+        n_prim += 1
+        removed = {bi.ref for _, bi in unl}
+        pv = Prover(f)
+        ok = False
+        for ts in tail_stores(f):
+            if strip_bitcasts(f, ts.o[0]) != '$1':
+                continue
+            # ... under "the removed node was the tail" (tail == removed) or "the removed node had no successor"
+            for (op, x, y) in pv.facts_at(ts):
+                if op != 'eq':
+                    continue
+                xs, ys = f.get(x) if isinstance(x, str) else None, f.get(y) if isinstance(y, str) else None
+                if (x in removed and ys is not None and ys.op == 'load' and resolve_addr(f, ys.o[0]).fsteps[-1:] == ((SL, 't'),)) or \
+                        (y in removed and xs is not None and xs.op == 'load' and resolve_addr(f, xs.o[0]).fsteps[-1:] == ((SL, 't'),)):
+                    ok = True
+                if y == 'null' and xs is not None and xs.op == 'load' and resolve_addr(f, xs.o[0]).fsteps[-1:] == ((NODE, 'n'),) \
+                        and strip_bitcasts(f, resolve_addr(f, xs.o[0]).root) in removed:
+                    ok = True
+        if ok:
+            n10.ok(f.name, 'tail := predecessor when the removed node was the last', floc(m, f))
+        else:
+            n10.violation(f.name, 'the node after the given one is unlinked, but no path sets the tail to the given (preceding) node when the removed node '
+                          'was the last: the tail keeps pointing at the removed element, and the next push_back links behind it', floc(m, f), {})
+    if n_prim == 0:
+        n10.undecided('slist-unlink', 'no function that unlinks the node after its node argument found')
 
     # ---- N9: (function pointer, context) pairing ---------------------------------------------
     from .util import check_callback_context
